@@ -66,6 +66,11 @@ def verify_target(args):
         con = contracts[key]
         out["name"] = con.name()
         out["qual"] = con.qual
+
+        def fam(oid, nm=con.name()):
+            f = family_of(oid)
+            # callee preconditions are obligations of the *calling* function: keep callers apart
+            return "%s:%s" % (nm, f) if f.startswith("call-pre.") else f
         try:
             fi = con.finfo(ft) if hasattr(con, "finfo") else ft.func(con.qual)
             out["sha"] = fi.sha
@@ -98,14 +103,14 @@ def verify_target(args):
             if flt is not None and not any(t in ob.oid for t in flt):
                 continue            # clause of another property proved by that property's own check
             if nfail >= max_fail:
-                out["obligations"].append({"oid": ob.oid, "family": family_of(ob.oid), "kind": ob.kind,
+                out["obligations"].append({"oid": ob.oid, "family": fam(ob.oid), "kind": ob.kind,
                                            "verdict": "skipped", "info": "after %d failures" % nfail, "secs": 0.0,
                                            "log": list(ob.meta.get("log", ()))})
                 continue
             v, info, secs, model = smt.check_one(ax, ob, timeout_ms)
             if v != "proved":
                 nfail += 1
-            rec = {"oid": ob.oid, "family": family_of(ob.oid), "kind": ob.kind, "verdict": v, "info": info,
+            rec = {"oid": ob.oid, "family": fam(ob.oid), "kind": ob.kind, "verdict": v, "info": info,
                    "secs": round(secs, 3), "log": list(ob.meta.get("log", ()))}
             if v != "proved":
                 rec["model"] = model
